@@ -237,6 +237,17 @@ def families(tier='quick', seed=0):
             ('not not A', ('not', ('not', ('id', 'A'))), {'A': A}),
             ('not A and not B', ('and', ('not', ('id', 'A')), ('not', ('id', 'B'))), ab)):
         add('condition', nm, {'idents': ids, 'cond': cond})
+    # negation over one multi-entry mapping, both written orders (conjunction order is observable under not)
+    add('condition', 'not {f,g}', {'idents': {'A': M((K('f'), S('a*')), (K('g'), S('>5')))}, 'cond': ('not', ('id', 'A'))})
+    add('condition', 'not {g,f}', {'idents': {'A': M((K('g'), S('>5')), (K('f'), S('a*')))}, 'cond': ('not', ('id', 'A'))})
+    add('condition', 'not {n,f,g}', {'idents': {'A': M((K('n'), M((K('f'), S('a')))), (K('f'), S('b')), (K('g'), ('i', 1)))}, 'cond': ('not', ('id', 'A'))})
+    add('condition', 'not {g,f,n}', {'idents': {'A': M((K('g'), ('i', 1)), (K('f'), S('b')), (K('n'), M((K('f'), S('a')))))}, 'cond': ('not', ('id', 'A'))})
+    # identifiers the condition mentions but the rule does not define: must be rejected at load
+    for nm, cond in (('Q', ('id', 'Q')), ('Q and A', ('and', ('id', 'Q'), ('id', 'A'))), ('A and Q', ('and', ('id', 'A'), ('id', 'Q'))),
+                     ('not Q', ('not', ('id', 'Q'))), ('A or B or Q', ('or', ('or', ('id', 'A'), ('id', 'B')), ('id', 'Q'))),
+                     ('(Q or A) and B', ('and', ('or', ('id', 'Q'), ('id', 'A')), ('id', 'B'))), ('all(Q)', ('all', 'Q')), ('of(Q,1)', ('of', 'Q', 1)),
+                     ('not (A and Q)', ('not', ('and', ('id', 'A'), ('id', 'Q')))), ('A and not Q', ('and', ('id', 'A'), ('not', ('id', 'Q'))))):
+        add('undefined-ident', nm, {'idents': ab, 'cond': cond})
     seqX = ('seq', [M((K('f'), S('a'))), M((K('g'), S('b'))), M((K('h'), S('c')))])
     mapX = M((K('f'), S('a')), (K('g'), S('b')), (K('h'), S('c')))
     oneX = M((K('f'), S('a')))
@@ -284,6 +295,18 @@ def families(tier='quick', seed=0):
     add('matrix', 'all(X) seq', {'idents': {'X': m1}, 'cond': ('all', 'X')})
     add('matrix', 'of(X,2) seq', {'idents': {'X': m1}, 'cond': ('of', 'X', 2)})
     add('matrix', 'int cols', {'idents': {'A': ('seq', [M((K('f', 'int'), ('i', 1)), (K('g'), S('a'))), M((K('f', 'int'), ('i', 2)), (K('g'), S('b')))])}, 'cond': ('id', 'A')})
+    # the same field constrained twice inside one or-branch (two key spellings of one field)
+    add('matrix', 'same field twice', {'idents': {'A': ('seq', [M((K('f'), S('>5')), (K('f', 'int'), S('<10')), (K('g'), S('a'))),
+                                                                 M((K('f'), ('i', 1)), (K('g'), S('b')))])}, 'cond': ('id', 'A')})
+    add('matrix', 'same field twice str', {'idents': {'A': ('seq', [M((K('f'), S('a*')), (K('f', 'str'), S('*b')), (K('g'), ('i', 1))),
+                                                                     M((K('f'), S('c')), (K('g'), ('i', 2)))])}, 'cond': ('id', 'A')})
+    nA = M((K('n'), M((K('f'), S('a')))))
+    nB = M((K('n'), M((K('g'), S('b')))))
+    nC = M((K('h'), S('c')))
+    add('shake', 'A and B and C nested same key', {'idents': {'A': nA, 'B': nB, 'C': nC},
+                                                   'cond': ('and', ('and', ('id', 'A'), ('id', 'B')), ('id', 'C'))})
+    add('shake', 'A or B or C nested same key', {'idents': {'A': nA, 'B': nB, 'C': nC},
+                                                 'cond': ('or', ('or', ('id', 'A'), ('id', 'B')), ('id', 'C'))})
     add('shake', 'A or B same field', {'idents': {'A': M((K('f'), S('a*'))), 'B': M((K('f'), S('*b')))}, 'cond': ('or', ('id', 'A'), ('id', 'B'))})
     add('shake', 'A or B or C same field', {'idents': {'A': M((K('f'), S('a*'))), 'B': M((K('f'), S('*b'))), 'C': M((K('f'), S('ic')))},
                                             'cond': ('or', ('or', ('id', 'A'), ('id', 'B')), ('id', 'C'))})
@@ -309,3 +332,29 @@ def select(tier, seed, fams=None):
     if fams is not None:
         allt = [t for t in allt if t[0] in fams]
     return allt
+
+
+MUST = {'list/i?a,i?b', 'list/?a,?b', 'list/a,?a,ib', 'list/a*,*b', 'list/ia,ib*', 'list/a*,*a,*a*,a', 'list/ab,b', 'list/a*,*b,ic',
+        'list-all/a*,*b', 'list-all/i?a,i?b', 'list-all/ab,b', 'list-of/a*,*b|2', 'list-of/?a,?b|2', 'list-of/ia,ib*|1', 'list-of/a,b|0',
+        'single/iA*', 'single/*a*', 'single/"a"', 'regex/i?a', 'number/>1', 'number/<=0.5', 'scalar/int1', 'scalar/null',
+        'quant-short/of2:a-only', 'quant-short/of0:a-only', 'quant-short/all:>1,<5', 'quant-ident/of(seq,2)', 'quant-ident/all(list)',
+        'quant-ident/of(list,2)', 'quant-ident/not of(map,1)', 'cast-cond/int(f)>1', 'cast-cond/str(f)==str(g)', 'cast-cond/not flt(f)>=1.5',
+        'regex-rewrite/?.*a', 'regex-rewrite/list', 'regex-rewrite/i?.*A', 'modifier/str(f) list', 'modifier/not(f) list', 'list-mixed/1,a',
+        'list-mixed/>1,<5'}
+
+
+def thin(tpl, quota, rnd):
+    """quick-tier thinning: every family keeps its MUST templates plus a seeded sample up to the quota"""
+    by = {}
+    for t in tpl:
+        by.setdefault(t[0], []).append(t)
+    out = []
+    for fam, ts in by.items():
+        n = quota.get(fam)
+        if n is None or n >= len(ts):
+            out += ts
+            continue
+        keep = [t for t in ts if t[1] in MUST]
+        rest = [t for t in ts if t[1] not in MUST]
+        out += keep + rnd.sample(rest, max(0, min(len(rest), n - len(keep))))
+    return out
